@@ -178,6 +178,13 @@ func VerifBatch(v *vrt.Ctx) {
 	}
 	_, err := bt.MenuExit(w)
 	v.Assert(err == nil, "C16/batch-exit-ok")
+	// asm.Parse calls MenuExit again before every ordinary instruction that
+	// follows the menu and once more at the end of the source: the menu has
+	// been written, nothing more comes
+	for i := 0; i < 2; i++ {
+		n, err := bt.MenuExit(w)
+		v.Assert(err == nil && n == 0, "C16/batch-menu-is-emitted-once")
+	}
 	b := w.Bytes()
 	for _, ln := range lines {
 		op, rest, err := vm.ParseOp(b)
